@@ -61,12 +61,18 @@ func IterateImportedDecls$1 [C16]
 // C10: what an import makes visible. With a list of names, each name is looked up in the export table (PublicDecls)
 // of the one imported module (the first; a directory import has none) and nowhere else (absent there: nil, which the resolver reports); without a list the
 // callback gets declarations under their own names.
-func IterateImportedDecls [C10]
+// d is an entry of m's export table
+spec fromTable(m *Module, d Declaration) bool := exists k string :: mapHas(m.PublicDecls, k) && m.PublicDecls[k] == d
+func IterateImportedDecls [C10, C16]
   requires imprt != nil
   callsite fun requires len(imprt.ImportedSymbols) != 0 ==> arg0 == arg2.Literal
   callsite fun requires len(imprt.ImportedSymbols) != 0 && !imprt.IsDirectoryImport && len(imprt.Modules) != 0 && imprt.Modules[0] != nil ==> arg1 == imprt.Modules[0].PublicDecls[arg0]
   callsite fun requires len(imprt.ImportedSymbols) != 0 && (imprt.IsDirectoryImport || len(imprt.Modules) == 0) ==> arg1 == nil
   callsite fun requires len(imprt.ImportedSymbols) == 0 ==> arg0 == arg1.Name() && arg2 == imprt.FileName
+  // C16: what is sorted by position is the export table of ONE module (one file: distinct declarations have distinct
+  // positions, so the position order is total on them and the result does not depend on the map order it was collected in)
+  loop 1 invariant forall i int :: 0 <= i && i < len(decls) ==> fromTable(module, decls[i])
+  callsite Slice requires forall i int :: 0 <= i && i < len(decls) ==> fromTable(module, decls[i])
 
 // a strict weak order that is total on distinct positions makes "collect a map into a slice,
 // then sort" independent of the collection order
